@@ -289,9 +289,15 @@ def pmap(func, items, procs=14, chunksize=None):
     if len(items) < 32 or procs <= 1:
         return [func(x) for x in items]
     import multiprocessing as mp
-    ctxm = mp.get_context("fork")
-    with ctxm.Pool(procs) as pool:
-        return pool.map(func, items, chunksize=chunksize or max(1, len(items) // (procs * 8)))
+    from concurrent.futures import ProcessPoolExecutor
+    from concurrent.futures.process import BrokenProcessPool
+    # ProcessPoolExecutor (not multiprocessing.Pool): when a worker dies abruptly (killed for memory by a changed
+    # implementation that blows up, say) the map raises instead of waiting for ever
+    try:
+        with ProcessPoolExecutor(max_workers=procs, mp_context=mp.get_context("fork")) as pool:
+            return list(pool.map(func, items, chunksize=chunksize or max(1, len(items) // (procs * 8))))
+    except BrokenProcessPool as ex:
+        raise MachineryFailure("a worker process executing the real code died abruptly (out of memory?): %s" % ex)
 
 
 def _after_failure(ctx):
